@@ -7,6 +7,7 @@ pub mod c03;
 pub mod c04;
 pub mod c05;
 pub mod c06;
+pub mod c08;
 pub mod c10;
 pub mod c12;
 pub mod c13;
@@ -25,6 +26,7 @@ pub fn clauses(property: &str) -> Vec<Clause> {
         "C04" => c04::clauses(),
         "C05" => c05::clauses(),
         "C06" => c06::clauses(),
+        "C08" => c08::clauses(),
         "C10" => c10::clauses(),
         "C12" => c12::clauses(),
         "C13" => c13::clauses(),
@@ -44,6 +46,7 @@ pub fn property_rule(property: &str) -> String {
         "C04" => "Sma / Ema / Alma: span bounds, constant reproduction, monotonicity, affine equivariance, EMA recurrence, ALMA kernel definition".into(),
         "C05" => "Rsi / MyRSI at Q and f64 vs gains and losses over the N most recent values; negation relation".into(),
         "C06" => "CTI / NET / CoG at Q and f64 vs Pearson r, Kendall tau, CoG formula on full windows; negation and rank-invariance relations".into(),
+        "C08" => "readiness never reverts and every value is finite (enumerated singles, generated chains, long runs); warm-up table incl. gating leaves; no change when nothing is delivered".into(),
         "C10" => "three instances fed x, y and a x + b y: out_z = a out_x + b out_y exactly in Q; DC gain clauses enumerated over N".into(),
         "C12" => "metamorphic pairs: x vs a x + b, a x, -x through two instances; exact in Q for rational a, b; bit-exact in f64 for a = 2^k and for negation".into(),
         "C13" => "WelfordRolling / Drawdown / LnReturn vs batch definitions over the whole history, exact and f64, long streams".into(),
@@ -84,6 +87,11 @@ pub fn property_assumptions(property: &str) -> Vec<String> {
         "C06" => {
             v.push("the statement's 'CTI is +1 on any strictly increasing window' is asserted only through Pearson's r (= +1 exactly on arithmetic progressions): the check never demands more than the definition in the same sentence".into());
             v.push("partial windows: values are checked when reported (NET, CoG) or left open (CTI); f64 leg exempts windows whose spread (CTI) or sum (CoG) is below 1e-3 of their magnitude".into());
+        }
+        "C08" => {
+            v.push("release profile, f64: a NaN must be seen, not turned into a debug-assert panic (that is C15)".into());
+            v.push("in-domain = finite input of magnitude 0 or 1e-3..1e6, positive for Drawdown/LnReturn, non-zero divisor; windows from 1 (from 3 for CyberCycle, 2 for PFE, whose smaller windows panic: C15)".into());
+            v.push("'for ever' is explored to 1e6 updates".into());
         }
         "C10" => v.push("DC clauses: 'once the start-up transient has decayed' = after T = 100 max(N, M, 25) steps, tolerance 1e-6 |c|".into()),
         "C12" => {
